@@ -90,10 +90,12 @@ const POW_EXPS: [&str; 24] = [
 ];
 /// Float specials in every context.
 const SPECIALS: [&str; 8] = ["log10(-1)", "ln(0)", "exp(1000)", "-exp(1000)", "sqrt(-1)", "asin(2)", "0.1^0.5", "ln(0) - ln(0)"];
-const SPECIAL_CTX: [&str; 26] = [
+const SPECIAL_CTX: [&str; 34] = [
     "{}", "{} s", "now + {} s", "now - {} s", "#2020-01-01# + {} s", "{} -> digits 3", "{} -> frac", "{} -> sci", "{} -> hex", "{} s -> hour;min", "{} m -> ft;inch",
     "2^{}", "{}^2", "{} mod 3", "3 mod {}", "1 << {}", "{} << 1", "{} and 1", "{} °C", "300 K -> {} °C", "{} water", "mass of ({} water)", "hypot({}, 1)",
     "{} m -> ft", "1 m -> {} ft", "{} + {}",
+    // as the exponent of something that carries a unit (the unit's power has to become something)
+    "m^{}", "(3 kg)^{}", "s^-{}", "5 m -> m^{}", "m^(1/{})", "(2 m)^({} - {})", "water^{}", "m^{} s^{}",
 ];
 /// Conversion modifiers with boundary counts.
 const DIGIT_COUNTS: [&str; 12] = ["0", "1", "2147483647", "2147483648", "4294967295", "4294967296", "9223372036854775807", "9223372036854775808", "18446744073709551615", "18446744073709551616", "1e3", "-1"];
